@@ -140,6 +140,22 @@ def handleEnv (op : String) : P String := do
       let ops ← pCounted pOp
       let r := Machine.run e (Machine.init d) ops
       pure (" ; ".intercalate (r.2.map showOut) ++ " | " ++ showLog r.1.d.log)
+  | "world" => do
+      let e ← pEnv
+      let nenv ← pNat
+      let d ← pDraw
+      let n ← pNat
+      let pW : P WOp := do
+        match (← tok) with
+        | "E" => do let i ← pNat; let op ← pOp; pure (.env i op)
+        | "L" => do let k ← pNat; pure (.libChoice k)
+        | _ => failure
+      let ops ← pList pW n
+      let w : World := ⟨d, List.replicate nenv ⟨e, none, none, none⟩⟩
+      let r := World.run w ops
+      let envLogs := r.1.envs.map fun x => match x.rng with | some dd => showLog dd.log | none => "-"
+      pure (" ; ".intercalate (r.2.map showOut) ++ " | " ++ showLog r.1.lib.log ++ " | " ++
+        " ; ".intercalate envLogs)
   | "gym" => do
       let e ← pEnv
       let enc ← pEnc
